@@ -1,10 +1,11 @@
 import YProofs.Props.C02Legs
 import YProofs.Props.C01Diag
+import YProofs.Props.C02Fuse
 /-!
 # C02 — every finite program
 
 `eval_wf`: starting from well-formed tensors, every value any finite straight-line program over the modelled
-operations (element-wise, conj/flip_signature, add/sub, transpose, tensordot, trace, add_leg, remove_leg, broadcast, apply_mask, diag)
+operations (element-wise, conj/flip_signature, add/sub, transpose, tensordot, trace, add_leg, remove_leg, broadcast, apply_mask, diag, hard fusion of legs)
 ever produces is well-formed.
 -/
 namespace YModel
@@ -141,6 +142,12 @@ theorem step_wf [Zero R] [Add R] [Mul R] [Neg R] [Conj R] [DecidableEq R] {d : S
     obtain ⟨wa, sa⟩ := hv a (getVal_mem ha)
     obtain ⟨w, _, _, hs, _⟩ := wf_diag wa h
     exact ⟨w, by rw [hs, sa]⟩
+  | fuse i groups =>
+    simp only [Step.run, bind, Except.bind] at h
+    split at h; · cases h
+    rename_i a ha
+    obtain ⟨wa, sa⟩ := hv a (getVal_mem ha)
+    exact ⟨wf_fuseHard (by rw [sa]; exact hd) wa groups h, by rw [(charge_fuseHard h).2.2, sa]⟩
 
 /-- **every finite sequence of operations**: starting from well-formed tensors, every value a program
 ever produces is well-formed (induction over the program) -/
